@@ -45,6 +45,7 @@ class TLCResult:
         self.errors = []
         self.wall = 0.0
         self.depth = 0
+        self.actions = {}       # with -coverage: action name -> (distinct, generated)
 
 
 class Ctx:
@@ -94,7 +95,7 @@ class Ctx:
 
     # -------------------------------------------------------------------- TLC
     def tlc(self, module, cfg=None, workers=None, timeout=900, simulate=None, depth=None,
-            extra_files=(), heap=None, label=None, seed=None, allow_violation=False):
+            extra_files=(), heap=None, label=None, seed=None, allow_violation=False, coverage=False, zero_ok=()):
         """Run TLC on spec/<module>.tla in a scratch copy of the spec directory."""
         d = os.path.join(self.scratch, "spec-%s-%d" % (module, len(self.cov["tlc_runs"])))
         shutil.copytree(os.path.join(VERIF, "spec"), d)
@@ -108,6 +109,9 @@ class Ctx:
             cmd += ["-simulate", "num=%d" % simulate, "-depth", str(depth or 100)]
         if seed is not None:
             cmd += ["-seed", str(seed)]
+        if coverage:
+            # per-action counts: an action of Next that is never taken means that what the model says about it was never exercised
+            cmd += ["-coverage", "1"]
         cmd += [module + ".tla"]
         env = dict(os.environ)
         if heap:
@@ -139,6 +143,9 @@ class Ctx:
                 m = re.match(r"The depth of the complete state graph search is (\d+)", line)
                 if m:
                     r.depth = int(m.group(1))
+                m = re.match(r"<(\w+) line \d+, col \d+ to line \d+, col \d+ of module (\w+)>: (\d+):(\d+)$", line)
+                if m and coverage:
+                    r.actions[m.group(1)] = (int(m.group(3)), int(m.group(4)))     # the last report wins (cumulative counts)
                 m = re.match(r"Error: Invariant (\S+) is violated", line)
                 if m:
                     r.violated.append(m.group(1))
@@ -163,6 +170,11 @@ class Ctx:
             raise MachineryError("TLC timed out on %s after %ds" % (name, timeout))
         if r.errors:
             raise MachineryError("TLC error on %s: %s\n%s" % (name, r.errors[0], r.tail))
+        if coverage:
+            self.cov["tlc_runs"][-1]["actions"] = {k: v[1] for k, v in r.actions.items()}
+            never = sorted(k for k, v in r.actions.items() if v[1] == 0 and k not in zero_ok and k != "Init")
+            if never or not r.actions:
+                raise MachineryError("vacuity: %s on %s: action(s) never taken: %s" % (cfg, name, never or "no action counts reported"))
         if r.violated and not allow_violation:
             raise MachineryError("the specification itself violates %s on %s (model error, not a verdict)\n%s"
                                  % (r.violated, name, r.tail))
